@@ -43,6 +43,9 @@ pub enum StoreFault {
     TruncateAt { path: String, at: usize },
     /// one bit flipped at an exact position
     FlipAt { path: String, at: usize, bit: u8 },
+    /// a symbolic link named like a source file appears in a package directory: dangling (an
+    /// editor lock file such as `.#x.gom`), pointing to itself (loop), or to a directory
+    Symlink { path: String, kind: u8 },
 }
 
 #[derive(Clone, Debug, serde::Serialize, serde::Deserialize)]
@@ -140,6 +143,16 @@ fn apply_store_fault(sb: &Sandbox, f: &StoreFault) -> bool {
             }
             None => false,
         },
+        StoreFault::Symlink { path, kind } => {
+            let full = sb.path(path);
+            let _ = std::fs::remove_file(&full);
+            let target = match kind % 3 {
+                0 => "no-such-target.gom".to_string(),
+                1 => full.clone(),
+                _ => sb.root.clone(),
+            };
+            std::os::unix::fs::symlink(target, &full).is_ok()
+        }
         StoreFault::FlipAt { path, at, bit } => match sb.read(path) {
             Some(mut b) if !b.is_empty() => {
                 let i = (*at).min(b.len() - 1);
@@ -625,6 +638,17 @@ fn check_case(sb: &Sandbox, opts: &Opts, idx: usize, case: &Case, per_op: usize,
                     }
                 }
             }
+            // symbolic links among the sources (dangling / loop / to a directory)
+            if op.entry != "link" {
+                for kind in 0..3u8 {
+                    let dir = match sources.iter().filter(|s| s.contains('/')).next() {
+                        Some(s) if kind % 2 == 1 => format!("{}/", &s[..s.rfind('/').unwrap_or(0)]),
+                        _ => String::new(),
+                    };
+                    let name = if kind == 0 { format!("{dir}.#zz_lock.gom") } else { format!("{dir}zz_link{kind}.gom") };
+                    plans.push(FaultPlan { store: StoreFault::Symlink { path: name, kind }, spec: clean_spec.clone() });
+                }
+            }
             let n_exact = if enumerate { 200 } else { 10 };
             for _ in 0..n_exact {
                 let path = (*p.pick(&pool)).clone();
@@ -658,6 +682,7 @@ fn check_case(sb: &Sandbox, opts: &Opts, idx: usize, case: &Case, per_op: usize,
                     StoreFault::Replace { .. } => "stored:file-replaced",
                     StoreFault::TruncateAt { .. } => "stored:truncated-at-exact-offset",
                     StoreFault::FlipAt { .. } => "stored:bit-flipped-at-exact-offset",
+                    StoreFault::Symlink { .. } => "stored:symlink-dangling-loop-or-dir",
                     StoreFault::None => "",
                 };
                 *r.fired.entry(kind.to_string()).or_insert(0) += 1;
